@@ -12,6 +12,14 @@ CHECKS = {
  'C09': dict(cat='proof', text="Lean theorems (any K, any parameters, any box): knots valid, bin search spec, per-bin strict monotonicity/end-points of the executed Expr terms, K-bin assembly strictly increasing with pinned end-points, tails identity; tied to the code by running the same Lean definitions against the four spline functions on knots, neighbours, end-points and the tail junction.",
              tech="Lean 4 proof + model/implementation correspondence", ref="DESIGN.md §5 C09"),
 }
+CHECKS.update({
+ 'C01': dict(cat='proof', text="Lean theorems: HasDerivAt laws with derivative exp(returned log-det) for the element-wise transformers and for the EXECUTED Expr terms of the RQ/quadratic/cubic bins (any bin, any parameters), box rescaling, ranked-dependency determinant (coupling with any mask, autoregressive, element-wise: det = product of diagonal), LU log-det, additivity under composition; tied to the code by running the same Lean definitions (fed the recorded conditioner outputs) against every modelled transform class, outputs and log-abs-dets.",
+             tech="Lean 4 proof + model/implementation correspondence", ref="DESIGN.md §5 C01"),
+ 'C02': dict(cat='proof', text="Lean theorems: scalar round trips (exp, tanh, leaky ReLU, the stable quadratic root, the executed RQ root term in both orders), structural round trips generic in the scalar bijections (coupling any mask, autoregressive in n passes, composite reversed, Householder); tied to the code in both directions incl. pass-by-pass autoregressive inverse; finiteness/accuracy in floating point only via the executed model (stated as such).",
+             tech="Lean 4 proof + model/implementation correspondence", ref="DESIGN.md §5 C02"),
+ 'C07': dict(cat='proof', text="Lean theorems generic in the element type: identity pass-through (both directions), the conditioner sees only the identity split, transformed feature depends only on itself + identity features + context, index partition of the executable mask split, image parameter layout; tied to the code bitwise (identity features, conditioner input) over every non-trivial mask subset for small feature counts.",
+             tech="Lean 4 proof + bitwise model/implementation correspondence", ref="DESIGN.md §5 C07"),
+})
 NOT_YET = {}
 
 def main():
